@@ -24,6 +24,9 @@ ROOT = os.path.dirname(os.path.dirname(os.path.abspath(__file__)))
 SPECS = os.path.join(ROOT, "specs")
 HARNESS = os.path.join(ROOT, "harness")
 REPO = os.environ.get("VERIF_REPO", "/repo")
+# evaluation of seeded / benign changes runs the checks against a scratch copy of the library (VERIF_REPO) and must not
+# overwrite the evidence of the unchanged tree: VERIF_OUT redirects evidence/ and replays/
+OUT = os.environ.get("VERIF_OUT", None)
 CP = "/opt/veriftools/tla/tla2tools.jar:/opt/veriftools/tla/CommunityModules-deps.jar"
 NCPU = os.cpu_count() or 4
 
@@ -372,7 +375,7 @@ def apalache(ctx, tla_text, modname, *, inv="Ok", timeout=900, name=None, extra_
             raise Infra("Apalache violation with empty bad set\n" + out[-2000:])
     else:
         errs = [l for l in out.splitlines() if " E@" in l or "rror" in l][:12]
-        keep = os.path.join(ROOT, "replays", "apalache-failed-%s.tla" % modname)
+        keep = os.path.join(OUT or ROOT, "replays", "apalache-failed-%s.tla" % modname)
         try:
             os.makedirs(os.path.dirname(keep), exist_ok=True)
             shutil.copy(os.path.join(d, modname + ".tla"), keep)
@@ -516,12 +519,12 @@ class Verdict:
                 ctx.prop, sig, len(its), known[sig].get("what", "")))
         rc = 0
         if new:
-            os.makedirs(os.path.join(ROOT, "replays"), exist_ok=True)
+            os.makedirs(os.path.join(OUT or ROOT, "replays"), exist_ok=True)
             by_sig = {}
             for it in new:
                 by_sig.setdefault((it["pipe"], it["sig"]), []).append(it)
             for (pipe, sig), its in sorted(by_sig.items()):
-                rp = os.path.join(ROOT, "replays", "%s-%s-%s.json" % (ctx.prop, pipe, digest(sig)))
+                rp = os.path.join(OUT or ROOT, "replays", "%s-%s-%s.json" % (ctx.prop, pipe, digest(sig)))
                 json.dump(dict(property=ctx.prop, pipe=pipe, sig=sig, tier=ctx.tier, seed=ctx.seed,
                                count=len(its), cases=[i["case"] for i in its[:20]],
                                details=[i["detail"] for i in its[:5]]), open(rp, "w"), indent=1)
@@ -551,8 +554,8 @@ def write_evidence(ctx, level, violations, known_seen, explanation=None):
     ev = dict(property_id=ctx.prop, tier=ctx.tier, seed=ctx.seed, level=level, coverage=cov,
               assumptions=ctx.assumptions, wall_s=round(time.time() - ctx.t0, 1), violations=violations,
               notes=ctx.notes)
-    os.makedirs(os.path.join(ROOT, "evidence"), exist_ok=True)
-    with open(os.path.join(ROOT, "evidence", ctx.prop + ".json"), "w") as f:
+    os.makedirs(os.path.join(OUT or ROOT, "evidence"), exist_ok=True)
+    with open(os.path.join(OUT or ROOT, "evidence", ctx.prop + ".json"), "w") as f:
         json.dump(ev, f, indent=1)
 
 
